@@ -10,6 +10,7 @@ import (
 
 	"github.com/osmosis-labs/osmosis/osmomath"
 	cltypes "github.com/osmosis-labs/osmosis/v31/x/concentrated-liquidity/types"
+	poolmanagertypes "github.com/osmosis-labs/osmosis/v31/x/poolmanager/types"
 
 	"verif/harness/simcore"
 )
@@ -307,6 +308,55 @@ func (w *world) exitEverybody(st simcore.Step, stepIdx int) bool {
 			}
 			if bound.IsPositive() {
 				run.Max("max/c01-dust-used-permille", left.MulRaw(1000).Quo(bound).Int64())
+			}
+		}
+	}
+	return w.reopenDrained(bctx, order[0].owner, stepIdx)
+}
+
+// reopenDrained continues on the branch where everybody has left: one account reopens each drained pool with a
+// full-range position (which sets a fresh price), trades against it one way, and leaves again. The pool must
+// let it leave and must again be left with dust only: nothing of the emptied pool's former books may survive
+// into the reopened one.
+func (w *world) reopenDrained(bctx sdk.Context, owner int, stepIdx int) bool {
+	run, n := w.run, w.n
+	who := n.Accts[owner]
+	for _, p := range w.pools {
+		if len(w.poolPositions(p)) == 0 {
+			continue
+		}
+		left0 := map[string]osmomath.Int{p.d0: n.Balance(bctx, p.addr, p.d0), p.d1: n.Balance(bctx, p.addr, p.d1)}
+		amt := pow10(12)
+		coins := sdk.NewCoins(sdk.NewCoin(p.d0, amt), sdk.NewCoin(p.d1, amt))
+		res := n.DeliverOn(bctx, &cltypes.MsgCreatePosition{PoolId: p.id, Sender: who.String(), LowerTick: cltypes.MinInitializedTick, UpperTick: cltypes.MaxTick, TokensProvided: coins, TokenMinAmount0: osmomath.ZeroInt(), TokenMinAmount1: osmomath.ZeroInt()}, 0, false)
+		r, _ := resp(res).(*cltypes.MsgCreatePositionResponse)
+		if !res.OK() || r == nil {
+			run.Probe("reopen-drained-pool-refused")
+			continue
+		}
+		in, out := p.d0, p.d1
+		if stepIdx%2 == 1 {
+			in, out = p.d1, p.d0
+		}
+		sw := n.DeliverOn(bctx, &poolmanagertypes.MsgSwapExactAmountIn{Sender: who.String(), Routes: []poolmanagertypes.SwapAmountInRoute{{PoolId: p.id, TokenOutDenom: out}}, TokenIn: sdk.NewCoin(in, pow10(11)), TokenOutMinAmount: osmomath.OneInt()}, 0, false)
+		if sw.OK() {
+			run.Probe("reopen-drained-pool-traded")
+		}
+		for _, m := range []sdk.Msg{
+			&cltypes.MsgCollectSpreadRewards{PositionIds: []uint64{r.PositionId}, Sender: who.String()},
+			&cltypes.MsgCollectIncentives{PositionIds: []uint64{r.PositionId}, Sender: who.String()},
+			&cltypes.MsgWithdrawPosition{PositionId: r.PositionId, Sender: who.String(), LiquidityAmount: r.LiquidityCreated},
+		} {
+			if x := n.DeliverOn(bctx, m, 0, false); !x.OK() {
+				run.Fail("C01", "cannot-exit", "reopen", "pool %d was emptied and reopened by one full-range position (liquidity %s, traded against once: %v); that position cannot leave: %T -> %s %v %v", p.id, r.LiquidityCreated, sw.OK(), m, x.Outcome, x.Err, x.Panic)
+				return false
+			}
+		}
+		for _, d := range []string{p.d0, p.d1} {
+			left := n.Balance(bctx, p.addr, d)
+			if left.GT(left0[d].AddRaw(8)) {
+				run.Fail("C01", "leftover-not-dust", "reopen", "pool %d was emptied (its account held %s%s), reopened by one position, traded against once and emptied again: its account now holds %s%s", p.id, left0[d], d, left, d)
+				return false
 			}
 		}
 	}
